@@ -129,10 +129,11 @@ def identName (s : Bytes) : Bytes := (s.dropWhile (· != 58)).drop 1
 
 /-- The identityref plug-in as a union member.  `pm` resolves the prefixes of the format the value arrives in (the union hands its
     format and prefix data on to the member: `union_store_type`), `pmJson` the module names of the LYB / canonical form.  The stored
-    identity is represented by its canonical string `module:name` (module names contain no colon). -/
-def idrefPlug (c : Ident.IdCtx) (bases : List Ident.Ident) (pm pmJson : Ident.PrefixMap) : Plug :=
+    identity is represented by its canonical string `module:name` (module names contain no colon).  `allBases` / `byModule`: the two
+    variants of the C code (`storeIdWith`, `sortIdWith`). -/
+def idrefPlugWith (allBases byModule : Bool) (c : Ident.IdCtx) (bases : List Ident.Ident) (pm pmJson : Ident.PrefixMap) : Plug :=
   let st := fun (p : Ident.PrefixMap) (hints : Nat) (s : Bytes) =>
-    match Ident.storeId c bases p hints s with
+    match Ident.storeIdWith allBases c bases p hints s with
     | .ok i => (.ok (.str (Ident.canonId i)) : Except MErr Value)
     | .error e => .error (.ident e)
   let cn := fun (v : Value) => match v with
@@ -144,10 +145,13 @@ def idrefPlug (c : Ident.IdCtx) (bases : List Ident.Ident) (pm pmJson : Ident.Pr
       | .str x, .str y => x == y
       | _, _ => false
     sort := fun a b => match a, b with
-      | .str x, .str y => Ident.sortId ⟨identMod x, identName x⟩ ⟨identMod y, identName y⟩
+      | .str x, .str y => Ident.sortIdWith byModule ⟨identMod x, identName x⟩ ⟨identMod y, identName y⟩
       | _, _ => 0
     lyb := cn
     unlyb := st pmJson Generated.LYD_HINT_DATA }
+
+/-- the plug-in of the tree the model was generated from -/
+def idrefPlug := idrefPlugWith Generated.identBaseAll Generated.identSortModule
 
 /-! ## union -/
 
